@@ -416,6 +416,7 @@ func init() {
 	for _, n := range []string{"lower", "upper", "length", "concat", "abs", "hex", "unhex", "position", "format"} {
 		functionsCI[n] = functions[n]
 	}
+	registerStringFuncs()
 	functionsCI["lcase"] = functions["lower"]
 	functionsCI["ucase"] = functions["upper"]
 	castFuncs = map[string]func([]any) (any, error){}
